@@ -176,6 +176,28 @@ def search(ctx):
             Jv = np.array(Jf(x)); ev += 1
             if not np.all(np.isfinite(Jv)):
                 report(nm + ":AD", "automatic-differentiation Jacobian is not finite at/near zero rotation", {"theta": th, "x": x.tolist()}, 1.0)
+    # zero rotation AS COMPUTED IN DOUBLES: the identity obtained as X * X^-1 (scalar part = sum of squares, which can round to
+    # 1 + a few ulp) and quaternions renormalised in floats; the logs must stay finite and tiny there
+    qprod = F("SO3", "SO3Quat.product"); qinv = F("SO3", "SO3Quat.inverse"); qexp_ = F("SO3", "SO3Quat.exp")
+    logs0 = [("SO3Quat", "SO3", 4, 0), ("SE3Quat", "SE3", 7, 3), ("SE23Quat", "SE23", 10, 6)]
+    n0 = 40 if ctx.tier == "quick" else 600
+    for it in range(n0):
+        v = rng.standard_normal(3) * rng.choice([0.3, 1.0, 2.5])
+        q = np.atleast_1d(qexp_(v)).ravel()
+        e = np.atleast_1d(qprod(q, np.atleast_1d(qinv(q)).ravel())).ravel()     # identity up to rounding
+        if it % 3 == 1:
+            e = np.array([1.0 + 2.220446049250313e-16 * (it % 5), 0.0, 0.0, 0.0]) # scalar part a few ulp above 1
+        if it % 3 == 2:
+            w = rng.standard_normal(3) * 1e-9
+            e = np.concatenate([[1.0], w / 2]); e = e / np.linalg.norm(e)
+        for (g, mod, n, off) in logs0:
+            X = np.zeros(n); X[:off] = rng.standard_normal(off) * 0.5; X[off:] = e
+            y = np.atleast_1d(F(mod, g + ".log")(X)).ravel(); ev += 1
+            inp = {"X": [float(t) for t in X], "note": "identity as computed in doubles (scalar part %.17g)" % e[0]}
+            if not np.all(np.isfinite(y)):
+                report(g + ".log:finite:computed-identity", "log is not finite at a numerically-zero rotation (identity computed as X X^-1 / 1 + ulp)", inp, 1.0)
+            elif not np.max(np.abs(y[-3:])) <= 1e-7:
+                report(g + ".log:accuracy:computed-identity", "rotation part of log at a numerically-zero rotation is not ~0", inp, np.max(np.abs(y[-3:])))
     ctx.samples.extend(found[:3] or [{"theta": 0.0316227766, "note": "switch of the squared series"}])
     return found, {"evaluations": ev, "distinct_nontrivial": len(grid), "grid_points": len(grid), "sides": sides}
 
